@@ -49,6 +49,21 @@ func (c *Ctx) handshakeFn() (*ssa.Function, ssa.CallInstruction) {
 				continue
 			}
 			if s, ok := flow.ConstString(ci.Common().Args[1]); ok && s == "CEA" {
+				if c.findRetransLoop(f) != nil {
+					return f, ci
+				}
+				// the registration may sit in a set-up helper: the handshake function is then the caller that
+				// holds the transmission loop, and the "registration" is its call of the helper
+				for _, g := range c.P.LibraryFuncs() {
+					if pkgOf(g).Path() != pkgSM {
+						continue
+					}
+					for _, cj := range flow.CallInstrs(g) {
+						if flow.StaticCallee(cj) == f && c.findRetransLoop(g) != nil {
+							return g, cj
+						}
+					}
+				}
 				return f, ci
 			}
 		}
@@ -225,6 +240,16 @@ func (c *Ctx) checkIdentityAVPs(f *ssa.Function, rule, settingsType string) {
 func (c *Ctx) checkRangeAdd(f *ssa.Function, rule, name string, isSrc func(ssa.Value) bool, code int64) {
 	r := c.R
 	key := fmt.Sprintf("%s:adds-every-%s", fname(f), name)
+	found, cond := c.rangeAdds(f, isSrc, code, 0)
+	why := "the builder does not add every element of " + name + " to the message"
+	if cond != "" {
+		why = "not every element of " + name + " is added (" + cond + "): some of what the client was told to advertise is left out"
+	}
+	r.Check(found, rule, key, c.fpos(f), "range loop adding every element, no condition inside the loop", why)
+}
+
+// rangeAdds: the analysis behind checkRangeAdd, following the slice into package-local helpers.
+func (c *Ctx) rangeAdds(f *ssa.Function, isSrc func(ssa.Value) bool, code int64, depth int) (bool, string) {
 	loops := flow.Loops(f)
 	found, cond := false, ""
 	for _, ci := range flow.CallInstrs(f) {
@@ -305,11 +330,57 @@ func (c *Ctx) checkRangeAdd(f *ssa.Function, rule, name string, isSrc func(ssa.V
 		}
 		found = true
 	}
-	why := "the builder does not add every element of " + name + " to the message"
-	if cond != "" {
-		why = "not every element of " + name + " is added (" + cond + "): some of what the client was told to advertise is left out"
+	if !found && depth < 2 {
+		// the loop may live in a package-local helper that receives the slice
+		for _, ci := range flow.CallInstrs(f) {
+			h := flow.StaticCallee(ci)
+			if h == nil || h.Blocks == nil || !c.P.IsLibrary(h) {
+				continue
+			}
+			for i, a := range ci.Common().Args {
+				if !isSrc(a) || i >= len(h.Params) {
+					continue
+				}
+				// the call itself only under tests of the source
+				okCall := true
+				for _, g := range flow.Guards(ci) {
+					isHead := false
+					for _, ol := range loops {
+						if ol.Head == g.If.Block() {
+							isHead = true // exit edge of an earlier loop
+						}
+					}
+					if isHead {
+						continue
+					}
+					rl, ok := condRel(g.If.Cond, g.Taken)
+					okG := false
+					if ok {
+						if isSrc(rl.a) && flow.IsNilConst(rl.b) {
+							okG = true
+						}
+						if x, isLen := builtinOf(rl.a, "len"); isLen && isSrc(x) {
+							okG = true
+						}
+					}
+					if !okG {
+						okCall = false
+					}
+				}
+				if !okCall {
+					cond = "the helper adding them is called only under another condition"
+					continue
+				}
+				hp := h.Params[i]
+				if ok, hc := c.rangeAdds(h, func(v ssa.Value) bool { return flow.Peel(v) == ssa.Value(hp) }, code, depth+1); ok {
+					found = true
+				} else if hc != "" {
+					cond = hc
+				}
+			}
+		}
 	}
-	r.Check(found, rule, key, c.fpos(f), "range loop adding every element, no condition inside the loop", why)
+	return found, cond
 }
 
 // handlerHygiene: closures with the handler signature created in package sm (library) must not
